@@ -10,6 +10,7 @@ Decided:
     interrupt ack of the value read, reset on drop; no access outside the table for that operation.
  M3 probing: only reads (magic, device id, version); accepted iff magic = 0x74726976, version in {1,2} and the device id
     is in the device-type table (0 and unknown rejected); `new` rejects regions shorter than 0x100 with checked arithmetic.
+ M5 config-space accessors of the MMIO transport: admitted iff inside the window, performed at the byte offset asked (= C13.G1).
  M4 delegation: every method of `impl Transport for SomeTransport` forwards to the same method of each variant with
     the same arguments in the same positions and returns its result.
 """
@@ -104,6 +105,12 @@ def run(F, R):
                     'Drop of the MMIO transport must reset the device (write Status=0 only); trace: %s' % ev)
     m3_probe(F, R, tadt, hadt, name_of, verfield)
     m4_delegation(F, R)
+    # M5: configuration-space accesses land where the driver asked: the MMIO accessors admit an access iff it lies inside the
+    # window and perform it at byte offset `offset` of the window, reads and writes alike (table shared with C13.G1); not
+    # repeated when this module itself runs as a shared analysis of another property
+    if ONLY_OPS is None and not isinstance(R, RuleProxy):
+        from .C13 import g1_bounds
+        guard(R, 'M5', 'config-access', lambda: g1_bounds(F, RuleProxy(R, {'G1': 'M5'}, only=lambda inst: 'Mmio' in inst)))
 
 
 ONLY_OPS = None      # set by other properties that reuse a subset of the per-operation traces
